@@ -300,7 +300,10 @@ static void div1_case(mp_size_t n, int kind, int c, int place) {
       fn_begin("mpn_mod_1_k"); IN_N1(); fn_in_int("k", k); fn_mid(); gb_fill(rp, 2);
       if (k == 1) mpn_mod_1_1(rp, a, n, dbp); else if (k == 2) mpn_mod_1_2(rp, a, n, dbp); else mpn_mod_1_3(rp, a, n, dbp);
       fn_out_limbs("rem", rp, 2); fn_end(); }
-    fn_begin("mpn_mod_1_k_wrap"); IN_N1(); fn_in_int("k", k); fn_mid(); r = k == 1 ? mpn_mod_1_1_wrap(a, n, d) : k == 2 ? mpn_mod_1_2_wrap(a, n, d) : mpn_mod_1_3_wrap(a, n, d); fn_out_u64("r", r); fn_end();
+    /* the wrappers hand {xp,xn} to mpn_mod_1_k, whose domain is xn >= k+2 (the k8 assembly reads xp[xn-k-2] unconditionally); their only caller,
+       mpn_divrem_euclidean_r_1, uses them above MOD_1_k_THRESHOLD; xn <= 1 is answered by the wrapper itself */
+    if (n >= k + 2 || n <= 1) {
+    fn_begin("mpn_mod_1_k_wrap"); IN_N1(); fn_in_int("k", k); fn_mid(); r = k == 1 ? mpn_mod_1_1_wrap(a, n, d) : k == 2 ? mpn_mod_1_2_wrap(a, n, d) : mpn_mod_1_3_wrap(a, n, d); fn_out_u64("r", r); fn_end(); }
     (void)rem;
   }
   d = d0;
@@ -325,7 +328,8 @@ static void div1_case(mp_size_t n, int kind, int c, int place) {
     fn_begin("mpn_modexact_1c_odd"); IN_N1(); fn_in_u64("c", cin); fn_mid(); r = mpn_modexact_1c_odd(a, n, d, cin); fn_out_u64("r", r); fn_end(); }
   fn_begin("mpn_divrem_hensel_qr_1"); IN_N1(); fn_mid(); gb_fill(q, n); r = mpn_divrem_hensel_qr_1(q, a, n, d); fn_out_limbs("q", q, n); fn_out_u64("ret", r); fn_end();
   fn_begin("mpn_divrem_hensel_qr_1_1"); IN_N1(); fn_mid(); gb_fill(q, n); r = mpn_divrem_hensel_qr_1_1(q, a, n, d); fn_out_limbs("q", q, n); fn_out_u64("ret", r); fn_end();
-  if (n >= 2) { fn_begin("mpn_divrem_hensel_qr_1_2"); IN_N1(); fn_mid(); gb_fill(q, n); r = mpn_divrem_hensel_qr_1_2(q, a, n, d); fn_out_limbs("q", q, n); fn_out_u64("ret", r); fn_end();
+  /* the _1_2 entry points are reached only through the dispatcher, at or above its threshold (the assembly versions state a minimum of 3 limbs) */
+  if (n >= 2 && !BELOW_THRESHOLD(n, DIVREM_HENSEL_QR_1_THRESHOLD)) { fn_begin("mpn_divrem_hensel_qr_1_2"); IN_N1(); fn_mid(); gb_fill(q, n); r = mpn_divrem_hensel_qr_1_2(q, a, n, d); fn_out_limbs("q", q, n); fn_out_u64("ret", r); fn_end();
     MPN_COPY(w, a, n); fn_begin("mpn_divrem_hensel_qr_1_2"); IN_N1(); fn_mid(); r = mpn_divrem_hensel_qr_1_2(w, w, n, d); fn_out_limbs("q", w, n); fn_out_u64("ret", r); fn_end(); }
   MPN_COPY(w, a, n); fn_begin("mpn_divrem_hensel_qr_1"); IN_N1(); fn_mid(); r = mpn_divrem_hensel_qr_1(w, w, n, d); fn_out_limbs("q", w, n); fn_out_u64("ret", r); fn_end();
   fn_begin("mpn_divrem_hensel_r_1"); IN_N1(); fn_mid(); r = mpn_divrem_hensel_r_1(a, n, d); fn_out_u64("ret", r); fn_end();
@@ -336,7 +340,7 @@ static void div1_case(mp_size_t n, int kind, int c, int place) {
   { mp_limb_t cin = c % 3 == 0 ? 0 : c % 3 == 1 ? rnd64() % d : d - 1;        /* carry-in below the divisor (its caller passes a remainder) */
     fn_begin("mpn_rsh_divrem_hensel_qr_1"); IN_N1(); fn_in_int("s", s); fn_in_u64("cin", cin); fn_mid(); gb_fill(q, n); r = mpn_rsh_divrem_hensel_qr_1(q, a, n, d, s, cin); fn_out_limbs("q", q, n); fn_out_u64("ret", r); fn_end();
     fn_begin("mpn_rsh_divrem_hensel_qr_1_1"); IN_N1(); fn_in_int("s", s); fn_in_u64("cin", cin); fn_mid(); gb_fill(q, n); r = mpn_rsh_divrem_hensel_qr_1_1(q, a, n, d, s, cin); fn_out_limbs("q", q, n); fn_out_u64("ret", r); fn_end();
-    if (n >= 2) { fn_begin("mpn_rsh_divrem_hensel_qr_1_2"); IN_N1(); fn_in_int("s", s); fn_in_u64("cin", cin); fn_mid(); gb_fill(q, n); r = mpn_rsh_divrem_hensel_qr_1_2(q, a, n, d, s, cin); fn_out_limbs("q", q, n); fn_out_u64("ret", r); fn_end(); }
+    if (n >= 2 && !BELOW_THRESHOLD(n, RSH_DIVREM_HENSEL_QR_1_THRESHOLD)) { fn_begin("mpn_rsh_divrem_hensel_qr_1_2"); IN_N1(); fn_in_int("s", s); fn_in_u64("cin", cin); fn_mid(); gb_fill(q, n); r = mpn_rsh_divrem_hensel_qr_1_2(q, a, n, d, s, cin); fn_out_limbs("q", q, n); fn_out_u64("ret", r); fn_end(); }
     MPN_COPY(w, a, n); fn_begin("mpn_rsh_divrem_hensel_qr_1"); IN_N1(); fn_in_int("s", s); fn_in_u64("cin", cin); fn_mid(); r = mpn_rsh_divrem_hensel_qr_1(w, w, n, d, s, cin); fn_out_limbs("q", w, n); fn_out_u64("ret", r); fn_end();
     /* the composition its caller mpn_divrem_1 relies on: cin = X mod (d << s') makes the division exact */
     if (d0 <= B63 / 2 + 1) { mp_limb_t de = d0, dodd; int tz; count_trailing_zeros(tz, de); dodd = de >> tz; cin = mpn_divrem_euclidean_r_1(a, n, de);
